@@ -2371,6 +2371,14 @@ mod generics_search {
             self.found |= tp.path.get_ident().is_some_and(|ident| {
                 self.search.types.contains(ident) || self.search.consts.contains(ident)
             });
+            // `TypeParam::AssocType` case.
+            self.found |= tp.qself.is_none()
+                && tp.path.leading_colon.is_none()
+                && tp.path.segments.len() > 1
+                && tp.path.segments.first().is_some_and(|segment| {
+                    segment.arguments.is_none()
+                        && self.search.types.contains(&segment.ident)
+                });
 
             syn::visit::visit_type_path(self, tp)
         }
